@@ -196,7 +196,7 @@ Z_ALPHABET = [0.0, 0.0, 1e-9, 1e-6, 1e-4]
 SCALES = [2.0, 10.0, 0.01, 1e3, 3.7, 0.5]
 
 C08_OPS = ['point', 'point', 'point', 'stream_point', 'stream_point', 'round_trip', 'round_trip',
-           'order', 'order', 'scale', 'permute', 'single', 'edit', 'use_gamma']
+           'order', 'order', 'scale', 'permute', 'single', 'edit', 'use_gamma', 'z_series']
 
 # ---- frozen tolerances of C08
 # Derivation: a solve stops when |dx| < xtol (T_tol = 1e-9 K, P_tol = 1e-3 Pa) or |residual| < ytol
@@ -382,6 +382,13 @@ class PointWorld(BaseWorld):
             tot = sum(x) or 1.0
             return {'ids': ids, 'x': [v / tot for v in x], 'T': round(r.uniform(self.pk.Tlo, self.pk.Thi), 2),
                     'kind': r.choice(['bubble', 'dew']), 'how': r.choice(['call', 'helper', 'helper'])}
+        if op == 'z_series':
+            # a sweep: the SAME specification for a series of compositions, written one after the other into one
+            # array object that the caller keeps
+            q = self.gen_query(r)
+            q['reuse_z'] = True
+            zs = [self.gen_z(r, len(q['ids'])) for _ in range(r.randint(1, 3))]
+            return {'q': q, 'zs': zs}
         if op == 'point':
             return {'q': self.gen_query(r)}
         if op == 'single':
@@ -524,7 +531,10 @@ class PointWorld(BaseWorld):
             if 'T' in ev:
                 return self.pk.Tlo <= ev['T'] <= self.pk.Thi
             return len(ev['flows']) == len(self.pk.ids) and min(ev['flows']) >= 0 and sum(ev['flows']) > 0
-        if op not in ('point', 'single', 'stream_point', 'round_trip', 'order', 'scale', 'permute'):
+        if op not in ('point', 'single', 'stream_point', 'round_trip', 'order', 'scale', 'permute', 'z_series'):
+            return False
+        if op == 'z_series' and not all(len(z) == len(ev['q']['ids']) and min(z) >= 0 and sum(z) > 0
+                                        for z in ev.get('zs', [])):
             return False
         if 'q' not in ev or not self.pre_q(ev['q']):
             return False
@@ -815,6 +825,15 @@ class PointWorld(BaseWorld):
 
     do_stream_point = do_point
     do_single = do_point
+
+    def do_z_series(self, ev):
+        out = [self.do_point(ev)]
+        for z in ev.get('zs', []):
+            q2 = dict(ev['q'], z=list(z))
+            if not self.pre_q(q2):
+                continue
+            out.append(self.do_point(dict(ev, q=q2)))
+        return ['ok', str(out)[:120]]
 
     def other(self, q, value):
         q2 = dict(q)
